@@ -1,6 +1,7 @@
 package main
 
 import (
+	"encoding/json"
 	"strings"
 	"fmt"
 	"os"
@@ -18,6 +19,8 @@ func main() {
 		cmdGen(os.Args[2:])
 	case "liftgen":
 		cmdLiftGen(os.Args[2:])
+	case "sigs":
+		cmdSigs(os.Args[2:])
 	default:
 		fmt.Fprintln(os.Stderr, "unknown command")
 		os.Exit(2)
@@ -51,3 +54,44 @@ func cmdDump(args []string) {
 	}
 }
 
+
+// cmdSigs prints, for every func block of the contract files, the parameter and captured-variable names of the function it
+// binds to (JSON: file -> block name -> names). Used by tools/mkbinds.py to write the `binds` fingerprints.
+func cmdSigs(args []string) {
+	pkgs := []string{roPath}
+	if len(args) > 0 {
+		pkgs = strings.Split(args[0], ",")
+	}
+	w, err := loadWorld("/repo", pkgs)
+	if err != nil {
+		panic(err)
+	}
+	blocks, _, err := loadContracts(w)
+	if err != nil {
+		panic(err)
+	}
+	out := map[string]map[string][]string{}
+	for _, b := range blocks {
+		if b.Kind != "func" {
+			continue
+		}
+		fn := w.allFuncs(b.Pkg)[b.Name]
+		if fn == nil {
+			continue
+		}
+		var names []string
+		for f := fn; f != nil; f = f.Parent() {
+			for _, p := range f.Params {
+				names = append(names, p.Name())
+			}
+			for _, fv := range f.FreeVars {
+				names = append(names, fv.Name())
+			}
+		}
+		if out[b.File] == nil {
+			out[b.File] = map[string][]string{}
+		}
+		out[b.File][b.Name] = names
+	}
+	json.NewEncoder(os.Stdout).Encode(out)
+}
